@@ -216,4 +216,11 @@ def runSpecCase (j : Json) : Json :=
     ("localRefsOk", Json.bool localRefsOk),
     ("nops", Json.num (JsonNumber.fromNat v.ops.length))]
 
+def runPathFuncsCase (j : Json) : Json :=
+  let path := getStr j "path"
+  match getStr j "op" with
+  | "extract" => Json.mkObj [("list", Json.arr ((extractPathParams path).map Json.str).toArray)]
+  | "strip" => Json.mkObj [("str", Json.str (stripParametersInPath path))]
+  | _ => Json.mkObj [("bool", Json.bool (isVisited DCfg.asIs path ((getArr j "visited").filterMap optStr)))]
+
 end VM.Driver
